@@ -108,6 +108,31 @@ Definition glue_segments (l : list (nat * nat * V)) : list V :=
 
 End CatX.
 
+(* ---------- unique_in_order, the fallback loop for unhashable elements, literally ----------
+     lookup = {}
+     for element in elements:
+         token = tokenize(unwrap(element))
+         try: index = lookup[token]
+         except KeyError: index = len(unique_elements); lookup[token] = index; unique_elements.append(element)
+         inverse.append(index)
+   K = the type of tokens, tok = tokenize o unwrap, the dict is an association list *)
+Section Tok.
+Context {V K : Type} (keqb : K -> K -> bool) (tok : V -> K).
+Fixpoint assoc (k : K) (d : list (K * nat)) : option nat :=
+  match d with [] => None | (k', i) :: t => if keqb k' k then Some i else assoc k t end.
+Fixpoint uio_tok_loop (d : list (K * nat)) (u : list V) (l : list V) : list V * list nat :=
+  match l with
+  | [] => (u, [])
+  | x :: t =>
+      match assoc (tok x) d with
+      | Some i => let '(u', inv) := uio_tok_loop d u t in (u', i :: inv)
+      | None => let i := length u in
+                let '(u', inv) := uio_tok_loop ((tok x, i) :: d) (u ++ [x]) t in (u', i :: inv)
+      end
+  end.
+Definition uio_tok (l : list V) : list V * list nat := uio_tok_loop [] [] l.
+End Tok.
+
 (* ---------- wire ---------- *)
 Definition of_optZs (l : list (option Z)) : sx := L (map of_optZ l).
 
@@ -179,4 +204,5 @@ Definition wire_112 (x : sx) : sx :=
 Definition wire_113 (x : sx) : sx :=
   let l := to_Zs x in
   let u := unique_in_order Z.eqb l in
-  L [of_Zs u; of_nats (inverse_of Z.eqb u l)].
+  let '(u2, inv2) := uio_tok Z.eqb (fun z : Z => z) l in
+  L [of_Zs u; of_nats (inverse_of Z.eqb u l); of_Zs u2; of_nats inv2].
